@@ -151,7 +151,10 @@ func (d *Decoder) readPayload() (payload []byte, n int, err error) {
 		if err != nil {
 			return nil, n, fmt.Errorf("error reading claimed uncompressed size varint: %w", err)
 		}
-		if claimedUncompressedSize <= 0 {
+		if claimedUncompressedSize < 0 {
+			return nil, n, fmt.Errorf("claimed uncompressed size %d is negative", claimedUncompressedSize)
+		}
+		if claimedUncompressedSize == 0 {
 			if actualUncompressedSize := buf.Len(); actualUncompressedSize > d.compressionThreshold {
 				return nil, n, fmt.Errorf("actual uncompressed size %d is greater than threshold %d",
 					actualUncompressedSize, d.compressionThreshold)
